@@ -1,10 +1,10 @@
 package an
 
 import (
-	"sort"
 	"fmt"
 	"go/token"
 	"go/types"
+	"sort"
 	"strings"
 
 	"golang.org/x/tools/go/ssa"
@@ -397,9 +397,44 @@ func (g *gateRun) returnSites(idxOf func(*types.Signature) int, isEffect func(v 
 			}
 			out = append(out, site)
 		}
-		expand(ret.Results[idx], b, nil, 0, map[*ssa.Phi]bool{})
+		expand(unspill(ret.Results[idx]), b, nil, 0, map[*ssa.Phi]bool{})
 	}
 	return out
+}
+
+// unspill resolves the defer-spilled return idiom: in a function with defers go/ssa stores each result into a local
+// cell, runs the defers and returns a load of the cell. When no closure captures the cell (so no deferred function
+// can change it), the value returned is the value stored last in the same block.
+func Unspill(v ssa.Value) ssa.Value { return unspill(v) }
+
+func unspill(v ssa.Value) ssa.Value {
+	ld, ok := v.(*ssa.UnOp)
+	if !ok || ld.Op != token.MUL {
+		return v
+	}
+	cell, ok := ld.X.(*ssa.Alloc)
+	if !ok {
+		return v
+	}
+	for _, ref := range *cell.Referrers() {
+		if _, isMC := ref.(*ssa.MakeClosure); isMC {
+			return v
+		}
+	}
+	b := ld.Block()
+	var last ssa.Value
+	for _, in := range b.Instrs {
+		if in == ssa.Instruction(ld) {
+			break
+		}
+		if st, ok := in.(*ssa.Store); ok && st.Addr == ssa.Value(cell) {
+			last = st.Val
+		}
+	}
+	if last == nil {
+		return v
+	}
+	return last
 }
 
 func succIndex(from, to *ssa.BasicBlock) int {
@@ -1037,4 +1072,92 @@ func ReturnsConstBoolVal(idx int, want bool) Effect {
 			return ok && b == want
 		})
 	}}
+}
+
+// MapOK: the ok result of comma-ok map lookups in a map stored in a field named `field` ("" = any map).
+func MapOK(field string) Check {
+	return Check{Desc: "comma-ok lookup in map " + field, Pass: IsTrue, Values: func(fn *ssa.Function) []ssa.Value {
+		var out []ssa.Value
+		for _, b := range fn.Blocks {
+			for _, in := range b.Instrs {
+				lk, ok := in.(*ssa.Lookup)
+				if !ok || !lk.CommaOk {
+					continue
+				}
+				if field != "" && !FieldV("", field).M(lk.X) {
+					continue
+				}
+				for _, ref := range *lk.Referrers() {
+					if ex, ok := ref.(*ssa.Extract); ok && ex.Index == 1 {
+						out = append(out, ex)
+					}
+				}
+			}
+		}
+		return out
+	}}
+}
+
+// StoresOnAllPaths reports whether every path from fn's entry to a return passes a store into the named field
+// (of any struct); it returns the number of such stores found.
+func StoresOnAllPaths(fn *ssa.Function, typ, field string) (n int, ok bool) {
+	blocked := map[*ssa.BasicBlock]bool{}
+	for _, b := range fn.Blocks {
+		for _, in := range b.Instrs {
+			if st, isSt := in.(*ssa.Store); isSt {
+				if fa, isFA := st.Addr.(*ssa.FieldAddr); isFA && fieldNameIs(fa.X.Type(), fa.Field, typ, field) {
+					blocked[b] = true
+					n++
+				}
+			}
+		}
+	}
+	if n == 0 || len(fn.Blocks) == 0 {
+		return n, false
+	}
+	seen := map[*ssa.BasicBlock]bool{}
+	var stack []*ssa.BasicBlock
+	if !blocked[fn.Blocks[0]] {
+		stack = append(stack, fn.Blocks[0])
+		seen[fn.Blocks[0]] = true
+	}
+	for len(stack) > 0 {
+		b := stack[len(stack)-1]
+		stack = stack[:len(stack)-1]
+		if len(b.Instrs) > 0 {
+			if _, isRet := b.Instrs[len(b.Instrs)-1].(*ssa.Return); isRet {
+				return n, false
+			}
+		}
+		for _, s := range b.Succs {
+			if !seen[s] && !blocked[s] {
+				seen[s] = true
+				stack = append(stack, s)
+			}
+		}
+	}
+	return n, true
+}
+
+// MapOKPol is MapOK with an explicit pass polarity (IsFalse: the effect is allowed only when the key is absent).
+func MapOKPol(field string, pol Polarity) Check {
+	c := MapOK(field)
+	c.Pass = pol
+	if pol == IsFalse {
+		c.Desc += " is false"
+	}
+	return c
+}
+
+// ConstNilReturn: a return whose last result is the constant nil (an explicit success return; returns of computed
+// errors are not included).
+func ConstNilReturn() Effect {
+	return InstrEffect("return <..., nil>", func(in ssa.Instruction) bool {
+		ret, ok := in.(*ssa.Return)
+		if !ok || len(ret.Results) == 0 {
+			return false
+		}
+		c, ok := unspill(ret.Results[len(ret.Results)-1]).(*ssa.Const)
+		return ok && c.IsNil()
+	})
 }
